@@ -27,6 +27,7 @@ import (
 )
 
 type Clause struct {
+	Own   bool   // not inherited through `like`
 	Kind  string // requires ensures invariant decreases assume
 	Text  string
 	Expr  SExpr
@@ -200,10 +201,12 @@ func (cs *ContractSet) readFile(fset *token.FileSet, f *ast.File, pkgPath, pkgNa
 				if word == "extern" {
 					k = word + " " + rest
 				}
-				if _, dup := cs.ByKey[k]; dup {
-					errf(pos, "duplicate contract %s", k)
+				if prev, dup := cs.ByKey[k]; dup {
+					// a later block for the same key continues the earlier one
+					cur = prev
+				} else {
+					cs.ByKey[k] = cur
 				}
-				cs.ByKey[k] = cur
 			case "spec":
 				m := regexp.MustCompile(`^(\w+)\(([^)]*)\)\s*([^=]+?)\s*=\s*(.*)$`).FindStringSubmatch(rest)
 				if m == nil {
@@ -298,8 +301,12 @@ func (cs *ContractSet) readFile(fset *token.FileSet, f *ast.File, pkgPath, pkgNa
 				case "loop":
 					n := 0
 					fmt.Sscanf(rest, "%d", &n)
-					curLoop = &LoopSpec{Ordinal: n}
-					cur.Loops[n] = curLoop
+					if prev, ok := cur.Loops[n]; ok {
+						curLoop = prev
+					} else {
+						curLoop = &LoopSpec{Ordinal: n}
+						cur.Loops[n] = curLoop
+					}
 				case "modifies":
 					items := splitTop(rest)
 					if curLoop != nil {
@@ -308,8 +315,10 @@ func (cs *ContractSet) readFile(fset *token.FileSet, f *ast.File, pkgPath, pkgNa
 						cur.Modifies = append(cur.Modifies, items...)
 						cur.HasMod = true
 					}
-				case "requires", "ensures", "invariant", "decreases", "assume":
-					cl := &Clause{Kind: word, Text: rest, Props: props, Pos: pos}
+				case "requires", "ensures", "invariant", "decreases", "assume", "ownrequires", "ownensures":
+					own := strings.HasPrefix(word, "own")
+					word = strings.TrimPrefix(word, "own")
+					cl := &Clause{Kind: word, Text: rest, Props: props, Pos: pos, Own: own}
 					lastClause = cl
 					switch {
 					case word == "requires":
@@ -384,8 +393,8 @@ func (cs *ContractSet) resolveLikes() {
 				continue
 			}
 			rec(t, depth+1)
-			ct.Requires = append(append([]*Clause{}, t.Requires...), ct.Requires...)
-			ct.Ensures = append(append([]*Clause{}, t.Ensures...), ct.Ensures...)
+			ct.Requires = append(notOwn(t.Requires), ct.Requires...)
+			ct.Ensures = append(notOwn(t.Ensures), ct.Ensures...)
 			if t.HasMod && !ct.HasMod {
 				ct.Modifies = append([]string{}, t.Modifies...)
 				ct.HasMod = true
@@ -395,4 +404,14 @@ func (cs *ContractSet) resolveLikes() {
 	for _, k := range sortedKeys(cs.ByKey) {
 		rec(cs.ByKey[k], 0)
 	}
+}
+
+func notOwn(cs []*Clause) []*Clause {
+	var out []*Clause
+	for _, c := range cs {
+		if !c.Own {
+			out = append(out, c)
+		}
+	}
+	return out
 }
